@@ -2410,7 +2410,14 @@ class EdgeQLSourceGenerator(codegen.SourceGenerator):
                     self._ddl_visit_body(node.commands)
                 return
 
-            if node.commands:
+            # Only a single USING clause can be written without a block.
+            usings = (
+                node.code.from_operator,
+                node.code.from_function,
+                node.code.code,
+            )
+            block = bool(node.commands) or sum(map(bool, usings)) > 1
+            if block:
                 self.write(' {')
                 self._block_ws(1)
                 commands = self._ddl_clean_up_commands(node.commands)
@@ -2450,7 +2457,7 @@ class EdgeQLSourceGenerator(codegen.SourceGenerator):
                 )
 
             self._block_ws(-1)
-            if node.commands:
+            if block:
                 self.write('}')
 
         op_type = []
